@@ -85,18 +85,17 @@ PROPS = {
         "title": "Well-formed mapping lines parse to exactly their parts; malformed ones error",
         "units": [U5],
         "kani": [],
-        "technique": "Verus contracts on the real line parser: scanning primitives (positive relational closure contracts), class and header lines against reference grammar specs, member lines by sub-lemmas",
-        "level_text": "Proof for every byte string: the scanning primitives split exactly at the first stop byte / strip exactly the prefix / "
-                      "take the maximal digit run; a class line parses iff it has the shape `o -> b:tail` with the documented character "
-                      "restrictions and yields exactly (o, b); a header parses exactly as the reference grammar parser header_spec() does "
-                      "(JSON sourceFile form and `# key[: value]` with trimming); for member lines: method iff an argument list is present, "
-                      "line mapping present iff both obfuscated numbers are positive and carrying exactly the parsed numbers, end line "
-                      "required after a start line, original lines only after the argument list, foreign class split at the last dot; "
-                      "try_parse accepts only when nothing but line terminators remains; errors carry the offending line. "
-                      "A full print/parse lemma for member lines is NOT claimed.",
+        "technique": "Verus contracts on the real line parser: each scanning primitive IS one step of a reference parser in spec form (strip / sp_num / sp_word / sp_until), class, header and member lines equal class_spec / header_spec / member_spec in both directions (Ok iff Some, Err iff None)",
+        "level_text": "Proof for every byte string: parse_prefix / parse_usize / parse_until(_no_newline) are exactly the reference steps (for every byte class the "
+                      "stop predicate is shown to be, via the proof-carrying identity as_kind); a class line is accepted iff class_spec accepts it and yields exactly "
+                      "its parts, with two pure lemmas tying class_spec to the documented shape `o -> b:tail` (sound and complete for UTF-8 names); a header parses exactly "
+                      "as header_spec does and every line header_spec accepts (with UTF-8 pieces) is accepted; a member line is accepted iff member_spec accepts it "
+                      "(`    ` [START:END:] TYPE ` ` NAME [(ARGS)[:OSTART[:OEND]]] ` -> ` OBF), the record is assembled as member_record_ok prescribes (method iff argument "
+                      "list, names split at the last dot, line mapping iff both obfuscated numbers positive and carrying exactly the parsed numbers); try_parse accepts only "
+                      "when nothing but line terminators remains; errors carry the offending line. A print/parse lemma is NOT claimed.",
         "assumed": ["from_utf8, str::trim (sub-slice), str::parse::<usize> (abstract), rsplitn(2, '.') (split at last dot) and (b as char).is_numeric() (table, validated exhaustively by tools/native/is_numeric_table.rs) have their documented contracts",
                     "contents of byte-string literals (one axiom per literal, generated from the literal text itself)"],
-        "not_decided": ["member lines are not compared with a single reference grammar function (sub-lemmas only)"],
+        "not_decided": ["that the reference parsers are THE ProGuard grammar (they are written from the format description, position by position)"],
         "design_ref": "DESIGN.md 5/C05",
     },
     "C06": {
